@@ -111,6 +111,20 @@ def tevalS (data : Nat → α) (it : Nat → Nat) (dims as : List Nat) : α := d
 def tevalV (data : Nat → α) (it : Nat → Nat) (V : Nat) (dims as : List Nat) : List α :=
   vectorSetter data (laneInds it V (flatIndex dims as))
 
+/-- `teval_s(as)` of a mask view: `mask.teval_s(as) ? data.teval_s(as) : 0` -/
+def ftevalS (data : Nat → α) (mask : Nat → Bool) (dims as : List Nat) : α :=
+  if mask (flatIndex dims as) then data (flatIndex dims as) else 0
+
+/-- the multi-index `as` advanced by `j` along the last axis -/
+def bumpLast : List Nat → Nat → List Nat
+  | [], _ => []
+  | [a], j => [a + j]
+  | a :: as, j => a :: bumpLast as j
+
+/-- `teval(as)` of a mask view: `for j<V: bs = as; bs[last] += j; inds[j] = mask.teval_s(bs) ? data.teval_s(bs) : 0`, then a load -/
+def ftevalV (data : Nat → α) (mask : Nat → Bool) (V : Nat) (dims as : List Nat) : List α :=
+  (forRange 0 V 1).map fun j => ftevalS data mask dims (bumpLast as j)
+
 /-- body of every "vector loop over `ROUND_DOWN(n,V)` + scalar tail" in this file: `vec i` is what the
     vector iteration at `i` produces per lane, `sc i` what the scalar iteration produces -/
 def vecThenTail {β : Type} (n V : Nat) (vec : Nat → List β) (sc : Nat → β) : List β :=
